@@ -102,4 +102,11 @@ PROPS = {
         note="One (canonical) goroutine schedule per history; gaps outside the grid and histories longer than K are not covered; the final zero-lifetime RA is exempt as the statement says.",
         parts=[part("histories", "internal/corerad", "TestVerifC06", mode="sched", gomaxprocs=2, shards={"quick": 8, "thorough": 16})],
     ),
+    "C09": dict(
+        level="model_checking", engine="seq",
+        technique="bounded-exhaustive enumeration of message sequences (valid/invalid, runs beyond the retry budget) executed on the instrumented real advertiser and monitor under a virtual clock; counters and liveness checked after every sequence",
+        text="Every single message type x hop limit, and all sequences up to length L over {valid RS, bad-hop RS, NS, bad-hop RA} followed by a valid RS, are read by the real listener of a running advertiser and of a running monitor. After each sequence the invalid counter, the handled/monitor counters and the unicast RAs must match the valid/invalid split exactly, Run must still be running and the interface must not have been re-dialled.",
+        note="Canonical goroutine schedule per sequence; messages 10 ms apart; hop limits in the sequence alphabet are 64 and 1 (all 256 in the single-message sweep of the thorough tier).",
+        parts=[part("sequences", "internal/corerad", "TestVerifC09", mode="sched", gomaxprocs=2, shards={"quick": 12, "thorough": 16})],
+    ),
 }
